@@ -86,16 +86,19 @@ func (c01) Cases(tier string) int {
 }
 
 func (c01) Rule() string {
-	return "L2.gateway-query: 2 generated documents per case over the fields the gateway answers itself through the real Gateway.Query and Gq.query; L2.point: 10 point strings per case (rendered `key[:index][#id]` with ids containing the separators, and arbitrary strings over the separators) through executorGetPointData / isListElement and Pt.parsePoint / Pt.isListElement; corpus of minimised past failures, then random federations (monolith schema partitioned over 2-4 services, fields homed at 1-2 services, optional priorities) x random data graphs (nulls, empty/long lists, cycles, ids with ':' '#' space, non-ASCII) x type-directed queries (aliases, inline/untyped/named fragments, @skip/@include literal and variable, __typename, node(id)); every fourth case is also sent through GraphQLHandler and the body compared with what Execute returned; every 20th generated case a three-level plan under a list of 40-160 elements, executed 4 times; a case is non-trivial when the gateway made at least 2 service calls; distinct = distinct (federation, query) text; inputs in open known-finding regions are excluded from the random stream and exercised through their canonical replay"
+	return "L2.gateway-query: 2 generated documents per case over the fields the gateway answers itself through the real Gateway.Query and Gq.query; L2.point: 10 point strings per case (rendered `key[:index][#id]` with ids containing the separators, and arbitrary strings over the separators) through executorGetPointData / isListElement and Pt.parsePoint / Pt.isListElement; corpus of minimised past failures, then random federations (monolith schema partitioned over 2-4 services, one case in twelve a single service, fields homed at 1-2 services, optional priorities) x random data graphs (nulls, empty/long lists, cycles, ids with ':' '#' space, non-ASCII) x type-directed queries (aliases, inline/untyped/named fragments, @skip/@include literal and variable, __typename, node(id)); every fourth case is also sent through GraphQLHandler and the body compared with what Execute returned; every 20th generated case a three-level plan under a list of 40-160 elements, executed 4 times; a case is non-trivial when the gateway made at least 2 service calls; distinct = distinct (federation, query) text; inputs in open known-finding regions are excluded from the random stream and exercised through their canonical replay"
 }
 
 // GenFedInput draws a random federated input for case i.
 func GenFedInput(c *Ctx, i int, forC string) (FedInput, map[string]bool) {
 	r := c.Rand(i)
 	var spec FedSpec
-	switch r.Intn(4) {
-	case 0:
+	switch r.Intn(12) {
+	case 0, 1, 2:
 		spec = FixedFed()
+	case 3:
+		// a gateway in front of a single service (it still joins: through its own node field)
+		spec = SingleFed()
 	default:
 		spec = GenFed(r, 2+r.Intn(3), 25)
 	}
